@@ -24,8 +24,12 @@
   bytes in the window`); a peer that honours the negotiated window never shows the difference,
   and whenever this function accepts a distance zlib accepts it too.
 
-  Executable model only: nothing is proved about Huffman decoding.  Total (fuel / structural
-  recursion), kernel-reducible (used by `decide` in Properties/C06).
+  Executable model; total (fuel / structural recursion), kernel-reducible (used by `decide` in
+  Properties/C06).  Stored, fixed-Huffman and dynamic-Huffman blocks (canonical codes of any
+  complete code lengths, lengths sent without repeat codes) are proved correct against the
+  reference encoder of Model/DeflEnc.lean in Proofs/Inflate*.lean (Properties/C06_Inflate.lean);
+  repeat codes in the header, incomplete codes and the error paths are covered by the
+  differential test against zlib only.
 -/
 import Lomond.Model.Basic
 
@@ -154,38 +158,54 @@ def copyBack (dist : Nat) : Nat → Array Nat → Array Nat
   | 0, out => out
   | n + 1, out => copyBack dist n (out.push (out.getD (out.size - dist) 0))
 
+/-- what one symbol of a Huffman block leads to -/
+inductive Sym1
+  /-- go on at bit `pos` with output `out` -/
+  | next (pos : Nat) (out : Array Nat)
+  /-- the block (or the input, or the stream) ends -/
+  | stop (r : Fin)
+  deriving Repr, Inhabited
+
+/-- one round of the literal/length–distance loop of a Huffman block: a literal, the end of the
+    block, or a length with its distance.  (A function of its own — not part of the recursion of
+    `symLoop` — so that both have usable equation lemmas; branches as in `inflate_fast`.) -/
+def symStep (inp : Array Nat) (lit dist : Huff) (wsize : Nat) (pos : Nat) (out : Array Nat) : Sym1 :=
+  match decode lit inp pos with
+  | .eoi => .stop (.eoi out)
+  | .bad => .stop .bad
+  | .ok none _ => .stop .bad                      -- invalid literal/length code
+  | .ok (some sym) p1 =>
+    if sym < 256 then .next p1 (out.push sym)
+    else if sym = 256 then .stop (.done p1 out)
+    else if sym ≥ 286 then .stop .bad              -- invalid literal/length code (fixed code 286/287)
+    else
+      match bits inp p1 (lext.getD (sym - 257) 0) with
+      | .eoi => .stop (.eoi out)
+      | .bad => .stop .bad
+      | .ok le p2 =>
+        let len := lbase.getD (sym - 257) 0 + le
+        match decode dist inp p2 with
+        | .eoi => .stop (.eoi out)
+        | .bad => .stop .bad
+        | .ok none _ => .stop .bad                -- invalid distance code
+        | .ok (some ds) p3 =>
+          if ds ≥ 30 then .stop .bad              -- invalid distance code (fixed code 30/31)
+          else
+            match bits inp p3 (dext.getD ds 0) with
+            | .eoi => .stop (.eoi out)
+            | .bad => .stop .bad
+            | .ok de p4 =>
+              let d := dbase.getD ds 0 + de
+              if d > out.size ∨ d > wsize then .stop .bad     -- invalid distance too far back
+              else .next p4 (copyBack d len out)
+
 /-- the literal/length–distance loop of a Huffman block -/
 def symLoop (inp : Array Nat) (lit dist : Huff) (wsize : Nat) : Nat → Nat → Array Nat → Fin
   | 0, _, out => .eoi out
   | fuel + 1, pos, out =>
-    match decode lit inp pos with
-    | .eoi => .eoi out
-    | .bad => .bad
-    | .ok none _ => .bad                      -- invalid literal/length code
-    | .ok (some sym) p1 =>
-      if sym < 256 then symLoop inp lit dist wsize fuel p1 (out.push sym)
-      else if sym = 256 then .done p1 out
-      else if sym ≥ 286 then .bad              -- invalid literal/length code (fixed code 286/287)
-      else
-        match bits inp p1 (lext.getD (sym - 257) 0) with
-        | .eoi => .eoi out
-        | .bad => .bad
-        | .ok le p2 =>
-          let len := lbase.getD (sym - 257) 0 + le
-          match decode dist inp p2 with
-          | .eoi => .eoi out
-          | .bad => .bad
-          | .ok none _ => .bad                -- invalid distance code
-          | .ok (some ds) p3 =>
-            if ds ≥ 30 then .bad              -- invalid distance code (fixed code 30/31)
-            else
-              match bits inp p3 (dext.getD ds 0) with
-              | .eoi => .eoi out
-              | .bad => .bad
-              | .ok de p4 =>
-                let d := dbase.getD ds 0 + de
-                if d > out.size ∨ d > wsize then .bad     -- invalid distance too far back
-                else symLoop inp lit dist wsize fuel p4 (copyBack d len out)
+    match symStep inp lit dist wsize pos out with
+    | .stop r => r
+    | .next p out' => symLoop inp lit dist wsize fuel p out'
 
 /-- a stored block from bit position `pos` (just after the 3 header bits) -/
 def stored (inp : Array Nat) (pos : Nat) (out : Array Nat) : Fin :=
